@@ -6,6 +6,7 @@ from __future__ import annotations
 
 import ast
 import hashlib
+import json
 import os
 from dataclasses import dataclass, field
 from typing import Iterator, Optional
@@ -75,6 +76,7 @@ class Program:
         self.src = src
         self.modules: dict[str, Module] = {}
         self.funcs: dict[str, Func] = {}
+        self.folded: dict[str, str] = {}
         self.classes: dict[str, Class] = {}
         self.node2func: dict[int, Func] = {}
         self._alpha_ref: Optional[dict] = None
@@ -284,8 +286,33 @@ class Program:
         if not qualname.startswith("ngo"):
             qualname = "ngo." + qualname
         if qualname not in self.funcs:
+            folded = self._folded_into(qualname)
+            if folded is not None:
+                return folded
             raise AnalysisError(f"anchor function {qualname} not found in the current tree")
         return self.funcs[qualname]
+
+    def _folded_into(self, qualname: str) -> Optional[Func]:
+        """a private helper of the reference tree that no longer exists and had exactly one caller there was most
+        likely folded into that caller: the rules look for their constructs in the caller instead (recorded in
+        `self.folded`); whatever they do not find there is an analysis error, as before"""
+        if os.environ.get("NGOSA_NO_FOLD"):
+            return None
+        if getattr(self, "_callers_ref", None) is None:
+            path = os.path.join(os.path.dirname(os.path.abspath(__file__)), "callers_ref.json")
+            try:
+                with open(path, encoding="utf-8") as fh:
+                    self._callers_ref = json.load(fh)
+            except (OSError, ValueError):
+                self._callers_ref = {}
+        last = qualname.rsplit(".", 1)[-1].rsplit(":", 1)[-1]
+        if not last.startswith("_") or last.startswith("__"):
+            return None
+        callers = self._callers_ref.get(qualname, [])  # type: ignore[attr-defined]
+        if len(callers) != 1 or callers[0] not in self.funcs:
+            return None
+        self.folded[qualname] = callers[0]
+        return self.funcs[callers[0]]
 
     def has_func(self, qualname: str) -> bool:
         if not qualname.startswith("ngo"):
